@@ -1,15 +1,58 @@
-(* C02 — pins on the MILP shape (theorems in Proofs/C02Main.v to follow). *)
+(* C02 — pseudoknot order assignment is a proper and optimal level assignment.  Property theorems only. *)
 From Coq Require Import String Ascii ZArith List Bool Arith Lia.
-From RV Require Import Base.Val Gen.Common Model.Bpseq Model.Milp.
+From RV Require Import Base.Val Gen.Common Model.Bpseq Model.Milp
+     Proofs.Encode Proofs.Fcfs Proofs.Colouring Proofs.C02Main.
 Import ListNotations.
 
-(* pin: objective coefficient is +len on level 0 and -k*len on level k >= 1 *)
-Lemma C02_pin_objective : forall o l, (0 <= o)%Z ->
-  obj_coef o l = (if Z.eqb o 0 then l else - o * l)%Z.
-Proof. intros o l H. unfold obj_coef. destruct (Z.eqb o 0); lia. Qed.
+(* pins: objective coefficient +len on level 0 and -k*len on level k >= 1; level bound = max degree + 1 *)
+Theorem C02_pin_objective : forall o l, obj_coef (Z.of_nat o) l = coef o l.
+Proof. exact obj_coef_coef. Qed.
 Print Assumptions C02_pin_objective.
-
-(* pin: level bound = maximum degree + 1 *)
 Lemma C02_pin_level_bound : max_order_slack = 1 /\ milp_rows_as_modelled = true.
 Proof. split; reflexivity. Qed.
 Print Assumptions C02_pin_level_bound.
+
+(* the formulation: 0/1 points satisfying the rows <-> proper assignments with levels below the bound; objective = score *)
+Theorem C02_formulation_sound : forall rs x, feasible rs x = true ->
+    properP (adj_db rs) (length rs) (readback rs x) /\ (forall i, i < length rs -> nth i (readback rs x) 0 < max_order rs) /\
+    objective rs x = score rs (readback rs x).
+Proof. intros rs x H. destruct (feasible_proper rs x H). repeat split; try assumption. apply objective_score. exact H. Qed.
+Print Assumptions C02_formulation_sound.
+
+Theorem C02_formulation_complete : forall rs ord, length ord = length rs -> properP (adj_db rs) (length rs) ord ->
+    (forall i, i < length rs -> nth i ord 0 < max_order rs) ->
+    feasible rs (point_of_ord ord) = true /\ readback rs (point_of_ord ord) = ord.
+Proof. exact proper_feasible. Qed.
+Print Assumptions C02_formulation_complete.
+
+(* the level bound max degree + 1 loses nothing against assignments with ANY number of levels *)
+Theorem C02_level_bound : forall rs ord, length ord = length rs -> properP (adj_db rs) (length rs) ord ->
+    exists ord', length ord' = length rs /\ properP (adj_db rs) (length rs) ord' /\
+                 (forall i, i < length rs -> nth i ord' 0 < max_order rs) /\ (score rs ord <= score rs ord')%Z.
+Proof. exact level_bound. Qed.
+Print Assumptions C02_level_bound.
+
+(* if the solver keeps its contract (feasible, objective-maximal among feasible points) the assignment read back is
+   proper and maximises the score among ALL proper assignments *)
+Theorem C02_optimal : forall rs x, solver_contract rs x ->
+    properP (adj_db rs) (length rs) (readback rs x) /\
+    forall ord, length ord = length rs -> properP (adj_db rs) (length rs) ord -> (score rs ord <= score rs (readback rs x))%Z.
+Proof. exact optimal_among_all. Qed.
+Print Assumptions C02_optimal.
+
+Theorem C02_ge_fcfs : forall rs x, solver_contract rs x ->
+    forall ordf, fcfs_orders rs = Ok ordf -> (score rs ordf <= score rs (readback rs x))%Z.
+Proof. exact ge_fcfs. Qed.
+Print Assumptions C02_ge_fcfs.
+
+Theorem C02_stable : forall rs x, solver_contract rs x -> (forall r, In r rs -> (0 < rlen r)%Z) ->
+    forall i f, i < length rs -> f < nth i (readback rs x) 0 ->
+    ~ (forall j, j < length rs -> adj_db rs i j = true -> nth j (readback rs x) 0 <> f).
+Proof. exact stable. Qed.
+Print Assumptions C02_stable.
+
+(* non-vacuity: an H-type pseudoknot with unequal stems; the point putting the longer stem on level 0 is feasible *)
+Example C02_nonvacuous :
+  let rs := [(1, 12, 3); (5, 16, 2)] in
+  feasible rs (point_of_ord [0; 1]) = true /\ objective rs (point_of_ord [0; 1]) = 1%Z /\ score rs [1; 0] = (-1)%Z /\ max_order rs = 2.
+Proof. vm_compute. repeat split; reflexivity. Qed.
